@@ -38,7 +38,7 @@ PROPS = {
     "C01": P("custody", ["default", "queues", "big", "genesis"], ["theorem.C01", "bank", "assets", "uq"], ALL_OPS,
              "custody invariant proved over the model for all histories; model tied to the code by per-step trace correspondence",
              module=None),
-    "C02": P("unbonding payout", ["queues", "default", "genesis"], ["uq", "ui", "bank", "clock"], ["undelegate", "endblock", "slash", "reimport"],
+    "C02": P("unbonding payout", ["queues", "default", "genesis"], ["theorem.INV-I", "uq", "ui", "bank", "clock"], ["undelegate", "endblock", "slash", "reimport"],
              "queue/index theorems over the model; correspondence on undelegate, end-of-block and slash steps",
              module=None),
     "C03": P("share ledger", ["default", "queues", "big", "genesis"], ["vals", "dels", "assets"], ALL_OPS,
@@ -50,7 +50,7 @@ PROPS = {
              module=None, probes="C05"),
     "C06": P("bonded slash", ["queues", "staking"], ["vals", "assets", "dels"], ["slash"],
              "exact slash relations over the model; correspondence of the slash callback", module=None),
-    "C07": P("slash of pending entries", ["queues", "genesis"], ["uq", "ui", "dels", "vals", "bank", "redels"], ["slash", "reimport"],
+    "C07": P("slash of pending entries", ["queues", "genesis"], ["theorem.INV-I", "theorem.INV-R", "uq", "ui", "dels", "vals", "bank", "redels"], ["slash", "reimport"],
              "entry-level slash theorems over the model; correspondence of the slash callback", module=None),
     "C08": P("slash callback totality", ["queues", "staking"], ["flag", "uq", "dels", "vals", "assets"], ["slash"],
              "totality of the callback under HookOK; correspondence of result and effects", module=None),
@@ -67,7 +67,7 @@ PROPS = {
              "index/claim theorems; correspondence of reward indices and payouts", module=None, probes="C13"),
     "C14": P("reward weight lifecycle", ["gov", "default"], ["assets", "snaps", "vals"], ["endblock", "update", "create"],
              "range invariant and decay exactness; correspondence of end-of-block and governance steps", module=None),
-    "C15": P("redelegation", ["queues", "genesis"], ["redels", "rq", "ri", "dels", "vals", "assets"], ["redelegate", "endblock", "reimport"],
+    "C15": P("redelegation", ["queues", "genesis"], ["theorem.INV-R", "redels", "rq", "ri", "dels", "vals", "assets"], ["redelegate", "endblock", "reimport"],
              "record/cleanup theorems; correspondence of redelegation steps", module=None),
     "C16": P("governance gate", ["gov"], ["assets", "params"], GOV_OPS,
              "gate and validity theorems for all field values; correspondence of the governance handlers", module=None),
@@ -80,7 +80,7 @@ PROPS = {
     "C19": P("determinism", ["default", "queues"], ["*"], ["*"],
              "the model's step is a function and the implementation equals it on every explored step; regenerated hazard table",
              module=None, level="other", probes="C19"),
-    "C20": P("queries", ["queues", "default", "genesis"], ["query", "uq", "ui", "redels", "dels"], ["query"] + USER_OPS + ["slash", "endblock"],
+    "C20": P("queries", ["queues", "default", "genesis"], ["query", "theorem.INV-I", "uq", "ui", "redels", "dels"], ["query"] + USER_OPS + ["slash", "endblock"],
              "query refinement theorems over the model's query functions; every query of the real query server after every step against the model's answer on the observed state (`Q` lines) and against the reference enumeration",
              module=None, probes="C20"),
 }
